@@ -7,7 +7,7 @@ EXTENDS Selector, TLC, Json, IOUtils
 Rec == ndJsonDeserialize(IOEnv.TRACE)
 VARIABLE l
 
-Lay(a) == [i \in 1..Len(a) |-> a[i]]
+Lay(a) == [i \in 1..Len(a) |-> { a[i][j] : j \in 1..Len(a[i]) }]
 Res(a) == [i \in 1..Len(a) |-> <<a[i][1], a[i][2]>>]
 
 Event(e) ==
